@@ -804,14 +804,35 @@ static var Zip_Iter_Init(var self) {
   return values;
 }
 
+static size_t Zip_Input_Len(var iter) {
+  if (implements_method(iter, Len, len)) { return len(iter); }
+  size_t n = 0;
+  for (var c = iter_init(iter); c isnt Terminal; c = iter_next(iter, c)) { n++; }
+  return n;
+}
+
 static var Zip_Iter_Last(var self) {
   struct Zip* z = self;
   struct Tuple* values = z->values;
   struct Tuple* iters = z->iters;
   size_t num = len(iters);
   if (num is 0) { return Terminal; }
+  
+  /* The Zip ends with its shortest input: find that length (counting where an
+  ** input has no Len) and step longer inputs back to the last common item. */
+  size_t mlen = 0;
   for (size_t i = 0; i < num; i++) {
+    size_t n = Zip_Input_Len(iters->items[i]);
+    if (i is 0 or n < mlen) { mlen = n; }
+  }
+  if (mlen is 0) { return Terminal; }
+  
+  for (size_t i = 0; i < num; i++) {
+    size_t n = Zip_Input_Len(iters->items[i]);
     var last = iter_last(iters->items[i]);
+    for (size_t j = n; j > mlen; j--) {
+      last = iter_prev(iters->items[i], last);
+    }
     if (last is Terminal) { return Terminal; }
     values->items[i] = last;
   }
